@@ -1013,10 +1013,9 @@ class _Part2:
         for a in DEFAULTABLE[et]:
           if d(st.integers(0, 2)) == 0:
             if et == 'joint' and a == 'type' and (self.kept_reps or self.child is not None or self.is_child):
-              # known finding 'attach-default-joint-type-heap-overflow': a class-level joint type together with
-              # any mjs_attach (replicate / attach) overflows a heap buffer in ComputeReference
-              self.stats.add('defaults:joint-type-excluded-with-attach(known-finding)')
-              continue
+              # regression coverage of the fixed finding 'attach-default-joint-type-heap-overflow' (class-level joint
+              # type + mjs_attach overflowed a heap buffer in ComputeReference before the fix)
+              self.stats.add('defaults:joint-type-with-attach(fixed-finding-regression)')
             spec[a] = pool[d(st.integers(0, len(pool) - 1))]
         if 'ORI' in spec:
           inh = [self.classes[c]['ori'].get(et) for c in chain(cl['parent']) if self.classes[c]['ori'].get(et)]
